@@ -76,6 +76,12 @@ func runC12(run *Run, seed int64, cfg c12Cfg, sizes []int, rng *rand.Rand) (out 
 	}
 	nameA := strings.Repeat("A", cfg.NameLen)
 	nameB := strings.Repeat("B", cfg.NameLen)
+	if cfg.NameLen == 8 && seed%2 == 0 {
+		// names are opaque byte strings: colons, blanks, non-ASCII and control bytes (no '/', which the
+		// "name/address" form of a join target reserves)
+		nameA = "A:\xc3\xa9 \x01:7946"[:8]
+		nameB = "B@[::1]\xff"
+	}
 	meta := func(tag byte, n int) []byte { return bytes.Repeat([]byte{tag}, n) }
 	mut := func(newTime bool, sender bool) func(cf *memberlist.Config) {
 		return func(cf *memberlist.Config) {
@@ -115,8 +121,20 @@ func runC12(run *Run, seed int64, cfg c12Cfg, sizes []int, rng *rand.Rand) (out 
 	stateA := mkPayload(rng, 900001, 3000, false)
 	stateB := mkPayload(rng, 900002, 70000, true)
 	A.Del.State, B.Del.State = stateA, stateB
-	if _, err := A.ML().Join([]string{B.EP.Addr}); err != nil {
-		fail("join", "compatible peers could not join: %v (cfg %+v)", err, cfg)
+	// the forms a join target may take: address:port, name/address:port and - when the peer listens on the joiner's
+	// own configured port - the bare address (the port is filled in)
+	forms := []string{B.EP.Addr, nameB + "/" + B.EP.Addr}
+	if cfg.Port == 7946 {
+		forms = append(forms, B.EP.IP.String(), nameB+"/"+B.EP.IP.String())
+	}
+	target := forms[int(seed)%len(forms)]
+	run.Cell("join-target", []string{"addr:port", "name/addr:port", "addr", "name/addr"}[int(seed)%len(forms)])
+	if n, err := A.ML().Join([]string{target}); err != nil || n != 1 {
+		fail("join", "compatible peers could not join via %q: (%d, %v) (cfg %+v)", target, n, err, cfg)
+		return
+	}
+	if !contains(A.MemberNames(), nameB) {
+		fail("join-not-listed", "Join(%q) reported success but the joiner does not list the host: %q", target, A.MemberNames())
 		return
 	}
 	Settle(300 * time.Millisecond)
